@@ -70,27 +70,38 @@ Cut(w, n) == [w EXCEPT !.e = w.s + n]       \* SubRange::truncate / &slice[..n]
 Field(x, isLe) == ZExt(IF isLe THEN x ELSE Reverse(x), 8)
 
 (* index of the first occurrence of byte x in the window, -1 if none *)
-FindIn(b, w, x) == LET I == {i \in 0..(WLen(w) - 1) : b[w.s + 1 + i] = x}
-                   IN IF I = {} THEN -1 ELSE CHOOSE i \in I : \A j \in I : i <= j
+FindIn(b, w, x) ==
+    LET n == WLen(w) IN
+    IF \E i \in 0..(n - 1) : b[w.s + 1 + i] = x
+    THEN CHOOSE i \in 0..(n - 1) : b[w.s + 1 + i] = x /\ \A j \in 0..(i - 1) : b[w.s + 1 + j] # x
+    ELSE -1
 
-(* well-formed UTF-8 (Unicode 15 table 3-7), as core::str::from_utf8 *)
-RECURSIVE Utf8From(_, _)
-Utf8From(x, i) ==
-    IF i > Len(x) THEN TRUE
-    ELSE LET c == x[i]
-             C(j, lo, hi) == j <= Len(x) /\ x[j] >= lo /\ x[j] <= hi
-         IN IF c < 128 THEN Utf8From(x, i + 1)
-            ELSE IF c >= 194 /\ c <= 223 THEN C(i+1, 128, 191) /\ Utf8From(x, i + 2)
-            ELSE IF c = 224 THEN C(i+1, 160, 191) /\ C(i+2, 128, 191) /\ Utf8From(x, i + 3)
-            ELSE IF (c >= 225 /\ c <= 236) \/ c = 238 \/ c = 239
-                 THEN C(i+1, 128, 191) /\ C(i+2, 128, 191) /\ Utf8From(x, i + 3)
-            ELSE IF c = 237 THEN C(i+1, 128, 159) /\ C(i+2, 128, 191) /\ Utf8From(x, i + 3)
-            ELSE IF c = 240 THEN C(i+1, 144, 191) /\ C(i+2, 128, 191) /\ C(i+3, 128, 191) /\ Utf8From(x, i + 4)
-            ELSE IF c >= 241 /\ c <= 243
-                 THEN C(i+1, 128, 191) /\ C(i+2, 128, 191) /\ C(i+3, 128, 191) /\ Utf8From(x, i + 4)
-            ELSE IF c = 244 THEN C(i+1, 128, 143) /\ C(i+2, 128, 191) /\ C(i+3, 128, 191) /\ Utf8From(x, i + 4)
-            ELSE FALSE
-Utf8Ok(x) == Utf8From(x, 1)
+(* well-formed UTF-8 (Unicode table 3-7), as core::str::from_utf8.         *)
+(* Non-recursive (a recursion over a 4096-byte window is quadratic in TLC): *)
+(* CharLen(x, i) is the length of the well-formed sequence starting at i    *)
+(* (0 if none); the string is well-formed iff every non-continuation byte   *)
+(* starts one and every continuation byte lies inside one.                  *)
+IsCont(c) == c >= 128 /\ c <= 191
+CharLen(x, i) ==
+    LET c == x[i]
+        C(j, lo, hi) == j <= Len(x) /\ x[j] >= lo /\ x[j] <= hi
+    IN IF c < 128 THEN 1
+       ELSE IF c >= 194 /\ c <= 223 THEN (IF C(i+1, 128, 191) THEN 2 ELSE 0)
+       ELSE IF c = 224 THEN (IF C(i+1, 160, 191) /\ C(i+2, 128, 191) THEN 3 ELSE 0)
+       ELSE IF (c >= 225 /\ c <= 236) \/ c = 238 \/ c = 239
+            THEN (IF C(i+1, 128, 191) /\ C(i+2, 128, 191) THEN 3 ELSE 0)
+       ELSE IF c = 237 THEN (IF C(i+1, 128, 159) /\ C(i+2, 128, 191) THEN 3 ELSE 0)
+       ELSE IF c = 240 THEN (IF C(i+1, 144, 191) /\ C(i+2, 128, 191) /\ C(i+3, 128, 191) THEN 4 ELSE 0)
+       ELSE IF c >= 241 /\ c <= 243
+            THEN (IF C(i+1, 128, 191) /\ C(i+2, 128, 191) /\ C(i+3, 128, 191) THEN 4 ELSE 0)
+       ELSE IF c = 244 THEN (IF C(i+1, 128, 143) /\ C(i+2, 128, 191) /\ C(i+3, 128, 191) THEN 4 ELSE 0)
+       ELSE 0
+Utf8Ok(x) ==
+    \A i \in DOMAIN x :
+        IF IsCont(x[i])
+        THEN \E k \in 1..3 : i - k >= 1 /\ ~IsCont(x[i - k]) /\ CharLen(x, i - k) > k
+                             /\ \A m \in 1..(k - 1) : IsCont(x[i - m])
+        ELSE CharLen(x, i) > 0
 
 (* take n bytes from handle h: the common core of every read_* *)
 Take(b, t, h, n) ==
